@@ -96,7 +96,8 @@ def cex_failed_steps(res):
 # ----------------------------------------------------------------------------------------------- scenarios
 # end-to-end names carry the bytes a naive writer/parser could trip on: '%' directives, space, ':', quote, '#', braces
 FILE_JOBS = {1: {"src": 1, "inode": 1001, "file": b"/var/log/report%20x-usage%d.log"},
-             2: {"src": 2, "inode": 1002, "file": b"/var/log/c07 2 'q' #{x}.log"}}
+             # the same inode as job 1 under another source id: what a symlink to the same file produces
+             2: {"src": 2, "inode": 1001, "file": b"/var/log/c07 2 'q' #{x}.log"}}
 STREAM_NAME = {1: b"stdout", 2: b"load%:err"}
 
 
@@ -121,6 +122,10 @@ def file_scenario(sched, sync):
             j = st["job"]
             cur[j] = {s: (-1 if v == -1 else 0) for s, v in cur[j].items()}
             steps.append({"op": "truncate", "src": FILE_JOBS[j]["src"]})
+        elif st["op"] == "remove":
+            j = st["job"]
+            cur[j] = {s: -1 for s in cur[j]}
+            steps.append({"op": "remove", "src": FILE_JOBS[j]["src"]})
         else:
             steps.append({"op": "save"})
             for f in sorted(st["fails"]):
@@ -255,7 +260,7 @@ def analyse(calls, workdir):
         return None
 
     def ev(**kw):
-        e = {"op": "", "name": "", "name2": "", "fd": 0, "ok": True, "trunc": False, "w": 0}
+        e = {"op": "", "name": "", "name2": "", "fd": 0, "ok": True, "trunc": False, "app": False, "w": 0, "n": 0}
         e.update(kw)
         e["window"] = window
         events.append(e)
@@ -275,7 +280,7 @@ def analyse(calls, workdir):
             if c["injected"]:
                 injected.append(("open", c, name))
             if started and name and wr:
-                ev(op="open", name=name, fd=ret if ok else 0, ok=ok, trunc="O_TRUNC" in c["args"], call=c)
+                ev(op="open", name=name, fd=ret if ok else 0, ok=ok, trunc="O_TRUNC" in c["args"], app="O_APPEND" in c["args"], call=c)
             continue
         if n in ("write", "fsync", "fdatasync", "close"):
             try:
@@ -292,10 +297,10 @@ def analyse(calls, workdir):
                     parts = ln.split()
                     if parts[0] == "init":
                         started, init = True, bytes.fromhex(parts[1])
-                    elif parts[0] in ("commit_begin", "save_begin", "truncate_begin"):
+                    elif parts[0] in ("commit_begin", "save_begin", "truncate_begin", "remove_begin"):
                         window = int(parts[1])
                         ev(op="begin", mark=parts)
-                    elif parts[0] in ("commit_end", "save_end", "truncate_end"):
+                    elif parts[0] in ("commit_end", "save_end", "truncate_end", "remove_end"):
                         ev(op="end", mark=parts)
                         window = None
                     else:
@@ -312,7 +317,7 @@ def analyse(calls, workdir):
                 if ok:
                     wid = len(payloads) + 1
                     payloads[wid] = data[:ret]
-                    ev(op="write", fd=fd, ok=True, w=wid, call=c)
+                    ev(op="write", fd=fd, ok=True, w=wid, n=ret, call=c)
                 else:
                     ev(op="write", fd=fd, ok=False, call=c)
             elif n in ("fsync", "fdatasync"):
@@ -480,6 +485,11 @@ def held_timeline(sc, an):
                 cur[src] = {name: 0 for name in cur[src]}
                 held[src].append(dict(cur[src]))
                 versions.append((copy.deepcopy(held), copy.deepcopy(cur)))
+            elif sc["site"] == "file" and m[0] == "remove_begin":
+                src = int(m[2])
+                cur[src] = {}          # the job is gone: "no offsets" is a legitimate reading from now on
+                held[src].append({})
+                versions.append((copy.deepcopy(held), copy.deepcopy(cur)))
             elif sc["site"] == "generic" and m[0] == "save_begin":
                 cur = dict(sc["values"][int(m[1])])
                 held.append(dict(cur))
@@ -542,6 +552,9 @@ def run(ctx):
         {"key": "file/mutant(M_ZeroOffsetsWritten=FALSE)", "module": "OffsetsFile", "cfg": fcfg,
          "overrides": dict(noexp, M_ZeroOffsetsWritten="FALSE"), "expect": "violated",
          "violates": ("AlwaysLoadable",), "workers": 2},
+        {"key": "file/mutant(M_TmpStartsEmpty=FALSE)", "module": "OffsetsFile", "cfg": "OffsetsFile_quick.cfg",
+         "overrides": dict(noexp, M_TmpStartsEmpty="FALSE"), "expect": "violated",
+         "violates": ("AlwaysLoadable",), "workers": 3},
         {"key": "generic/faithful", "module": "OffsetsFile", "cfg": "OffsetsFile_quick.cfg", "overrides": gen, "expect": "ok", "workers": 2},
         {"key": "generic/mutant(D_NoFsync)", "module": "OffsetsFile", "cfg": "OffsetsFile_quick.cfg",
          "overrides": dict(gen, D_NoFsync="TRUE", **noexp), "expect": "violated",
@@ -551,6 +564,9 @@ def run(ctx):
          "expect": "violated", "violates": ("R_RoundTrip",), "workers": 2},
         {"key": "format/mutant(M_NamesVerbatim=FALSE)", "module": "OffsetsFormat", "cfg": "OffsetsFormat_mutant.cfg",
          "overrides": {"M_ZeroOffsetsWritten": "TRUE", "M_NamesVerbatim": "FALSE"},
+         "expect": "violated", "violates": ("R_RoundTrip",), "workers": 2},
+        {"key": "format/mutant(M_KeyIsSourceId=FALSE)", "module": "OffsetsFormat", "cfg": "OffsetsFormat_mutant.cfg",
+         "overrides": {"M_ZeroOffsetsWritten": "TRUE", "M_KeyIsSourceId": "FALSE"},
          "expect": "violated", "violates": ("R_RoundTrip",), "workers": 2},
         {"key": "format/faithful(D8)", "module": "OffsetsFormat", "cfg": "OffsetsFormat_quick.cfg",
          "overrides": {"Unconditional": "TRUE"}, "expect": "violated", "violates": ("RoundTrip",), "workers": 2},
@@ -621,7 +637,7 @@ def run(ctx):
     # ---------------------------------------------------------------- 3b. offset-0 family: truncateJob + commit + save + fresh load
     seq_scheds = {}
     for sch in file_sched:
-        if any(st["op"] == "truncate" for st in sch["steps"]):
+        if any(st["op"] in ("truncate", "remove") for st in sch["steps"]):
             k = json.dumps([(st["op"], st["job"], st["stream"]) for st in sch["steps"]])
             seq_scheds.setdefault(k, sch)
     if len(seq_scheds) < 20:
@@ -659,6 +675,9 @@ def run(ctx):
             elif st["op"] == "truncate":
                 cur[st["src"]] = {n: 0 for n in cur[st["src"]]}
                 held[st["src"]].append(dict(cur[st["src"]]))
+            elif st["op"] == "remove":
+                cur[st["src"]] = {}
+                held[st["src"]].append({})
             after.append((copy.deepcopy(held), copy.deepcopy(cur)))
         for ld in r["loads"]:
             h, c = after[ld["step"]]
@@ -722,7 +741,8 @@ def run(ctx):
         nlines = 0
         with open(path, "w") as f:
             for i, r in trs:
-                f.write(json.dumps({"tr": i, "k": 0, "op": "reset", "name": "", "name2": "", "fd": 0, "ok": True, "trunc": False, "w": 0}) + "\n")
+                f.write(json.dumps({"tr": i, "k": 0, "op": "reset", "name": "", "name2": "", "fd": 0, "ok": True, "trunc": False,
+                                    "app": False, "w": 0, "n": len(r["an"]["payloads"][0])}) + "\n")
                 nlines += 1
                 for k, e in enumerate(r["an"]["events"], 1):
                     if e["op"] == "mark":
@@ -730,7 +750,7 @@ def run(ctx):
                     if e["fd"] > 255:
                         raise vlib.Infra("descriptor number above 255")
                     f.write(json.dumps({"tr": i, "k": k, "op": e["op"], "name": e["name"], "name2": e["name2"], "fd": e["fd"],
-                                        "ok": e["ok"], "trunc": e["trunc"], "w": e["w"]}) + "\n")
+                                        "ok": e["ok"], "trunc": e["trunc"], "app": e["app"], "w": e["w"], "n": e["n"]}) + "\n")
                     nlines += 1
         ov = {"Site": '"%s"' % site}
         res = ctx.tlc("OffsetsFileTrace", "OffsetsFileTrace.cfg", workers=1, files={path: "c07_trace.ndjson"}, overrides=ov,
@@ -794,8 +814,8 @@ def run(ctx):
         at = timelines[i][1]
         seen = set()
 
-        def cat(ws):
-            return b"".join(pl[w] for w in ws)
+        def cat(segs):       # content = sequence of segments [write id, first byte, last byte] (1-based, inclusive)
+            return b"".join(pl[w][a - 1:b] for (w, a, b) in segs)
 
         def add(k, kind, taint, c):
             key = (kind, taint, c, at[k - 1])
@@ -818,10 +838,10 @@ def run(ctx):
                     continue
                 x = ino[c]
                 taint = tuple(sorted(x["taint"]))
-                ck = (i, tuple(x["vol"]), tuple(x["base"]), x["keep"])
+                ck = (i, json.dumps(x["vol"]), json.dumps(x["base"]), x["keep"])
                 if ck not in prefix_cache:
                     full = cat(x["vol"])
-                    lo = len(cat(x["vol"][:x["keep"]]))
+                    lo = min(x["keep"], len(full))
                     prefix_cache[ck] = [cid(site, cat(x["base"]))] + [cid(site, full[:n]) for n in range(lo, len(full) + 1)]
                 for c2 in prefix_cache[ck]:
                     add(k, "crash", taint, c2)
@@ -834,7 +854,7 @@ def run(ctx):
             continue
         d = step_desc[(i, ks[-1])]
         ino = {x["ino"]: x for x in d["inodes"]}
-        model = None if d["now"] == 0 else b"".join(an["payloads"][w] for w in ino[d["now"]]["vol"])
+        model = None if d["now"] == 0 else b"".join(an["payloads"][w][a - 1:b] for (w, a, b) in ino[d["now"]]["vol"])
         if model != an["final_cur"]:
             lost_track += 1
     if lost_track:
